@@ -59,10 +59,10 @@ def configs(dims, single=False):
     cdt = {True: torch.float32, False: torch.complex64} if single else {True: torch.float64, False: torch.complex128}
     if 2 in dims:
         for meth in ('softplus', 'exp'):
-            out.append(dict(op='C02 posreal 2', scalar='posreal', name=f'PositiveReal({meth})', mk=lambda bs=None, meth=meth: Mm.PositiveReal(bs, meth),
+            out.append(dict(op='C02 posreal 2', scalar='posreal', meth=meth, name=f'PositiveReal({meth})', mk=lambda bs=None, meth=meth: Mm.PositiveReal(bs, meth),
                             fn=lambda t, meth=meth: (Mm.to_positive_real_softplus if meth == 'softplus' else Mm.to_positive_real_exp)(t)))
         for lo, hi in ((-0.5, 2.0), (1.0, 1.25), (-3.0, -1.0)):
-            out.append(dict(op='C02 interval 2', scalar='interval', name=f'OpenInterval({lo},{hi})', mk=lambda bs=None, lo=lo, hi=hi: Mm.OpenInterval(lo, hi, bs),
+            out.append(dict(op='C02 interval 2', scalar='interval', lohi=(lo, hi), name=f'OpenInterval({lo},{hi})', mk=lambda bs=None, lo=lo, hi=hi: Mm.OpenInterval(lo, hi, bs),
                             fn=lambda t, lo=lo, hi=hi: Mm.to_open_interval(t, lo, hi)))
     for d in dims:
         for real in (True, False):
@@ -184,6 +184,21 @@ def correspondence(ctx):
                     out_ = m if isinstance(m, str) else guarded(lambda: m())
                 want = 'constructor/forward raised' if isinstance(out_, str) else f'{int(m.theta.shape[0])} {int(m.theta.shape[0])}'
                 shp_ok = (not isinstance(out_, str)) and m.theta.ndim == 1 and tuple(out_.shape) == (() if (bs is None and c['scalar'] == 'interval') else tuple(m.theta.shape))
+                # the VALUE of the class's forward() (not only of the functional map) against the model of the chart: a class-level slip
+                # (wrong method dispatched, bounds swapped in forward) leaves counts, shapes and ranks unchanged
+                val_ok = True
+                if shp_ok:
+                    from . import c01
+                    thv = m.theta.detach().numpy().astype(np.float64).reshape(-1)
+                    spec = (c01.Softplus(n=len(thv)) if c.get('meth') == 'softplus' else c01.ExpMap(n=len(thv))) if c['scalar'] == 'posreal' \
+                        else c01.Interval(n=len(thv), lower=c['lohi'][0], upper=c['lohi'][1])
+                    ml_ = common.run_model(['C02 map ' + spec.op(thv).split(' ', 1)[1]])[0]
+                    mv = c01.parse_out(ml_).astype(np.complex128) if ml_ != 'bad-op' else np.zeros(0)
+                    ov = out_.detach().numpy().reshape(-1).astype(np.complex128)
+                    val_ok = mv.shape == ov.shape and c01.rel_err(ov, mv) <= c01.TOL64
+                    if not val_ok:
+                        ctx.disagree(f"C02 map {spec.op(thv).split(' ', 1)[1]} [{c['name']}.forward(), batch_size={bs}]", ml_[:200], f'forward() = {ov.real.tolist()}')
+                        continue
                 if line == want and shp_ok:
                     ctx.agree(f"C02 {c['scalar']} {bs or 0} {c['name']}", (c['name'], bs))
                 else:
@@ -333,7 +348,8 @@ def probe(ctx):
         n = int(m.theta.shape[-1])
         k = m_[1] * (1 if batch is None else batch)      # a batched module is `batch` independent copies: block-diagonal Jacobian
         if 'scalar' in c:
-            k = 1 if batch is None else batch           # one chart of rank 1 per entry (model: scalarParam)
+            t_ = common.run_model([f"C02 {c['scalar']} {batch or 0}"])[0].split(' ')
+            k = int(t_[1]) if len(t_) == 2 and t_[1].isdigit() else -1      # one chart of rank 1 per entry: the model's scalarParam for this batch_size
         name = c['name'] + ('' if batch is None else f'[batch_size={batch}]')
         results = []
         attempts = 0
